@@ -290,12 +290,17 @@ func findIssue(list []core.ZodIssue, code core.IssueCode) (core.ZodIssue, bool) 
 }
 
 func runCell(lf leaf, w wrapper, mask int) (winner string, issue core.ZodIssue, found bool) {
-	return runCellSilent(lf, w, mask, 0)
+	return runCellWith(lf, w, mask, 0, false)
 }
 
-// runCellSilent: the sources in `silent` (a subset of mask) are configured with a map that answers ""
-// (it declines the issue), so the next source has to be asked.
 func runCellSilent(lf leaf, w wrapper, mask, silent int) (winner string, issue core.ZodIssue, found bool) {
+	return runCellWith(lf, w, mask, silent, true)
+}
+
+// runCellWith parses one site under one configuration.  asFuncs: the check and schema messages are given
+// as message functions instead of strings.  The sources in `silent` (a subset of mask) are configured with a
+// map that answers "" (it declines the issue), so the next source has to be asked.
+func runCellWith(lf leaf, w wrapper, mask, silent int, asFuncs bool) (winner string, issue core.ZodIssue, found bool) {
 	tag := func(bit int, t string) core.ZodErrorMap {
 		if silent&bit != 0 {
 			return constant("")
@@ -304,10 +309,16 @@ func runCellSilent(lf leaf, w wrapper, mask, silent int) (winner string, issue c
 	}
 	var c, s []any
 	if mask&srcC != 0 {
-		c = []any{(func(core.ZodRawIssue) string)(tag(srcC, "CHK"))}
+		c = []any{"CHK"}
+		if asFuncs {
+			c = []any{(func(core.ZodRawIssue) string)(tag(srcC, "CHK"))}
+		}
 	}
 	if mask&srcS != 0 {
-		s = []any{(func(core.ZodRawIssue) string)(tag(srcS, "SCH"))}
+		s = []any{"SCH"}
+		if asFuncs {
+			s = []any{(func(core.ZodRawIssue) string)(tag(srcS, "SCH"))}
+		}
 	}
 	core.SetConfig(nil)
 	cfg := &core.ZodConfig{}
